@@ -230,6 +230,49 @@ class Models(Structural):
         items = self._seq_items(x, 'all')
         return T.sand(*[self.itp.truth(i) for i in items]) if items else True
 
+    @reg('builtins.open')
+    def b_open(self, path, mode='r', *a, **k):
+        from . import text as TX
+        vfs = ctx().cache.setdefault('vfs', {})
+        if not isinstance(path, str):
+            raise EngineError('symbolic file path')
+        if 'w' not in mode and path not in vfs:
+            raise PyExc('FileNotFoundError', path)
+        return TX.FileObj(vfs, path, mode)
+
+    @reg('numpy.genfromtxt')
+    def np_genfromtxt(self, fname, skip_header=0, delimiter=None, names=None, usecols=None, **kw):
+        """Assumed contract of np.genfromtxt for the call shape used by eqsig (one numeric column, optional header names)."""
+        from . import text as TX
+        vfs = ctx().cache.setdefault('vfs', {})
+        if fname not in vfs:
+            raise PyExc('FileNotFoundError', str(fname))
+        lines = [l for l in TX.splitlines(vfs[fname])]
+        lines = lines[T.concrete_int(skip_header):]
+        lines = [l for l in lines if not (isinstance(l, str) and l.strip() == '')]
+        col = 0 if usecols is None else T.concrete_int(usecols)
+        header = None
+        if names is True:
+            if not lines:
+                raise PyExc('StopIteration', 'no header line')
+            first = lines.pop(0)
+            cells = TX.split_on(first, delimiter) if delimiter is not None else TX.split_on(first, None)
+            header = TX.sanitise_name(cells[col] if col < len(cells) else '')
+            if header == '':
+                header = 'f0'
+        vals = []
+        for l in lines:
+            cells = TX.split_on(l, delimiter) if delimiter is not None else TX.split_on(l, None)
+            vals.append(TX.parse_float(self.itp, cells[col]))
+        ctx().assumed.append('numpy.genfromtxt / text I/O (decimal-text domain)')
+        if len(vals) == 1:
+            r = A.barr_from(vals[0], 'float')            # numpy squeezes a single row to a 0-d array
+        else:
+            r = A.barr_from(vals, 'float') if vals else A.bfull((0,), 0, 'float')
+        if header is not None:
+            r.names = (header,)
+        return r
+
     @reg('collections.OrderedDict')
     def c_ordered_dict(self, *a, **k):
         return dict(*a, **k)
